@@ -36,7 +36,7 @@ var contextSpec = map[string][]string{
 	"LocalReferenceObject":  {"def($v1=string($id)); def($v2,$v3=$_this.markedObjects[$v1]); if($v3){if($v2&$allowedDataTypes==0){reject}; return}; def($v4=$_this.forwardLocalReferences[$v1]); if($v4==0){let($v4=$allowedDataTypes)}else{let($v4&=$allowedDataTypes)}; set($_this.forwardLocalReferences[$v1]=$v4)"},
 	"ValidateIdentifier":    {"if(?pure:len($data)==0){reject}; if(?pure:len($data)>?pure:conv($_this.config.Rules.MaxIdentifierLength)){reject}; if(!internal/chars.IsIdentifierSafe($data)){reject}"},
 	// arrays (C11, C14)
-	"StreamStringData":                   {"let($nextRunesBytes=$data); def($v1=?pure:len($_this.utf8RemainderBuffer)); if($v1>0){def($v2=internal/chars.CalculateRuneByteCount($_this.utf8RemainderBuffer[0])); set($_this.utf8RemainderBuffer=$_this.utf8RemainderBuffer[:$v2]); def($v3=?pure:copy($_this.utf8RemainderBuffer[$v1:],$nextRunesBytes)); let($nextRunesBytes=$nextRunesBytes[$v3:]); if($v1+$v3<$v2){set($_this.utf8RemainderBuffer=$_this.utf8RemainderBuffer[:$v1+$v3]); return}; let($firstRuneBytes=$_this.utf8RemainderBuffer); set($_this.utf8RemainderBuffer=$_this.utf8RemainderBuffer[:0])}; def($v4,$v5=internal/chars.IndexOfLastRuneStart($nextRunesBytes)); if(!$v5){def($v6=$nextRunesBytes[$v4:]); set($_this.utf8RemainderBuffer=$_this.utf8RemainderBacking[:?pure:len($v6)]); ?pure:copy($_this.utf8RemainderBuffer,$v6); let($nextRunesBytes=$nextRunesBytes[:$v4])}; return"},
+	"StreamStringData":                   {"let($nextRunesBytes=$data); def($v1=?pure:len($_this.utf8RemainderBuffer)); if($v1>0){def($v2=internal/chars.CalculateRuneByteCount($_this.utf8RemainderBuffer[0])); set($_this.utf8RemainderBuffer=$_this.utf8RemainderBuffer[:$v2]); def($v3=?pure:copy($_this.utf8RemainderBuffer[$v1:],$nextRunesBytes)); let($nextRunesBytes=$nextRunesBytes[$v3:]); if($v1+$v3<$v2){set($_this.utf8RemainderBuffer=$_this.utf8RemainderBuffer[:$v1+$v3]); return}; let($firstRuneBytes=$_this.utf8FirstRuneBacking[:$v2]); ?pure:copy($firstRuneBytes,$_this.utf8RemainderBuffer); set($_this.utf8RemainderBuffer=$_this.utf8RemainderBuffer[:0])}; def($v4,$v5=internal/chars.IndexOfLastRuneStart($nextRunesBytes)); if(!$v5){def($v6=$nextRunesBytes[$v4:]); set($_this.utf8RemainderBuffer=$_this.utf8RemainderBacking[:?pure:len($v6)]); ?pure:copy($_this.utf8RemainderBuffer,$v6); let($nextRunesBytes=$nextRunesBytes[:$v4])}; return"},
 	"MarkCompletedChunkByteCount":        {"set($_this.chunkActualByteCount+=$byteCount); if($_this.chunkActualByteCount>$_this.chunkExpectedByteCount){reject}"},
 	"markUpcomingChunkByteCount":         {"set($_this.arrayTotalByteCount+=$byteCount); ctx.validateArrayTotalByteCount($_this.arrayTotalByteCount,$_this.arrayMaxByteCount)"},
 	"validateArrayTotalByteCount":        {"if($byteCount>$_this.arrayMaxByteCount&&$maxByteCount>0){reject}"},
